@@ -7,7 +7,7 @@ Anything not listed raises `Unsupported` (undecided, never a violation).
 """
 import ast
 import z3
-from ttvc.symex import (quick_unsat, Unsupported, ContractMismatch, NONE, VStr, VOpt, VTuple, VRef, VList, VRec, VSeq, VArr, VFunc,
+from ttvc.symex import (VSym, quick_unsat, Unsupported, ContractMismatch, NONE, VStr, VOpt, VTuple, VRef, VList, VRec, VSeq, VArr, VFunc,
                         VOpaque, Z, is_num, is_z3num, is_intsort, is_boolv, module_ast, strcode, Outcome, NORMAL)
 from ttvc import theory as T
 
@@ -310,6 +310,8 @@ def fresh_like(ex, st, v, name):
     """A fresh value 'of the same type' (loop havoc, callee results)."""
     if v is NONE or isinstance(v, (VFunc, VOpaque, TypeVal, VMap)):
         return v
+    if isinstance(v, VSym):
+        return VSym(ex.fresh(name, v.term.sort()), v.what)
     if isinstance(v, bool) or isinstance(v, z3.BoolRef):
         return ex.fresh_bool(name)
     if is_intsort(v):
@@ -469,7 +471,11 @@ def subscript(ex, st, base, sl_, node):
                 ex.oblige(st, 'safety', 'list-index-in-range', False, node)
                 return VOpaque('oob')
             return b.items[i]
-        raise Unsupported('symbolic index into a concrete list')
+        ex.oblige(st, 'safety', 'list-index-in-range', z3.And(Z(i) >= 0, Z(i) < len(b.items)), node)
+        for pos in range(len(b.items) - 1):
+            if ex.decide(st, Z(i) == pos, node):
+                return b.items[pos]
+        return b.items[-1]
     if isinstance(b, VSeq):
         if isinstance(sl_, ast.Slice):
             lohi = slice_parts(ex, st, sl_, b.n, node)
@@ -1375,3 +1381,19 @@ def m_einsum(ex, st, args, kwargs, node):
     if ex.lenient:
         return VOpaque('einsum')
     raise Unsupported(f'np.einsum pattern {sub!r}')
+
+
+@model('np.argmax')
+def m_argmax_list(ex, st, args, kwargs, node):
+    v = st.deref(args[0])
+    if isinstance(v, (VList, VTuple)) and all(is_num(x) for x in v.items) and len(v.items) >= 1:
+        used('np.argmax([x0, x1, ...]) -> position of the first largest element')
+        best, pos = Z(v.items[0]), z3.IntVal(0)
+        for k, x in enumerate(v.items[1:], start=1):
+            x = Z(x)
+            if x.sort() != best.sort():
+                x, best = to_real(x), to_real(best)
+            pos = z3.If(x > best, k, pos)
+            best = z3.If(x > best, x, best)
+        return pos
+    raise Unsupported('np.argmax pattern')
